@@ -57,6 +57,9 @@ int main(void) {
 	if (!has_level) CHECK(b1 == 1, "base header level changes only through the header-level keys");
 	if (!has_lang) CHECK(l1 == LC_EN, "language changes only through the language key");
 	if (!has_lang && !has_ql) CHECK(q1 == ENGLISH, "quotes language changes only through language / quoteslanguage");
+	/* what the body writers see does not depend on the wrapper switches: the bibtex file is recorded whether or not a snippet was requested */
+	{ int has_bib = 0; for (int i = 0; i < NMAX; i++) if (i < IN.n && IN.k[i] == 9) has_bib = 1;
+	  if (!off) CHECK((s1->bibtex_file != 0) == (has_bib != 0), "bibtex key is passed to the body writers exactly when present, independent of --snippet/--full"); }
 	/* the decision does not depend on the order of the keys */
 	if (IN.swap) { run(1, &e2, &b2, &l2, &q2, &f2, &s2); CHECK(e2 == e1, "complete/snippet decision independent of key order"); }
 	COVER(e1 != IN.ext); COVER(other && e1 == IN.ext && !off); COVER(b1 != 1); COVER_OPT(f1 != IN.fmt); COVER(l1 != LC_EN); COVER(IN.n == NMAX && IN.swap);
